@@ -22,6 +22,24 @@ class Boom(Exception):
     pass
 
 
+class InplaceBlock(torch.nn.Module):
+    """a block that post-processes quantized module outputs with in-place scalar arithmetic"""
+
+    def __init__(self):
+        super().__init__()
+        self.q_proj = torch.nn.Linear(16, 16)
+        self.k_proj = torch.nn.Linear(16, 16)
+        self.out = torch.nn.Linear(16, 4)
+
+    def forward(self, x):
+        q = self.q_proj(x)
+        q /= 4.0
+        k = self.k_proj(x)
+        k *= 0.5
+        k.neg_() if not isinstance(k, Q.QTensor) else None
+        return self.out(q + k)
+
+
 def digest(t):
     if isinstance(t, Q.QTensor):
         parts = []
@@ -95,7 +113,7 @@ def main():
             elif case["kind"] == "purity":
                 wq = {"qint8": Q.qint8, "qint4": Q.qint4, "qint2": Q.qint2, "qfloat8": Q.qfloat8}[case["weights"]]
                 aq = {None: None, "qint8": Q.qint8, "qfloat8": Q.qfloat8}[case["activations"]]
-                model = torch.nn.Sequential(torch.nn.Linear(16, 16), torch.nn.LayerNorm(16), torch.nn.Linear(16, 4))
+                model = InplaceBlock() if case.get("inplace") else torch.nn.Sequential(torch.nn.Linear(16, 16), torch.nn.LayerNorm(16), torch.nn.Linear(16, 4))
                 x = torch.randn(3, 16)
                 float_before = {k: digest(v) for k, v in model.state_dict().items()}
                 float_params = {k: v.detach().clone() for k, v in model.state_dict().items()}
@@ -103,7 +121,7 @@ def main():
                 # quantize() keeps the float parameters bit-identical
                 r["quantize_keeps_params"] = all(digest(model.state_dict()[k]) == float_before[k] for k in float_before if k in model.state_dict())
                 if aq is not None:
-                    with torch.no_grad(), Calibration():
+                    with torch.no_grad(), Calibration(streamline=not case.get("inplace")):
                         model(x)
                 if case.get("frozen"):
                     freeze(model)
